@@ -298,6 +298,17 @@ T_CHILDRENLIST = {
                 cursor = cursor.parent
         """)],
 }
+T_OPTIONAL = {
+    "__iadd__": [("extend", """
+        def __iadd__(self, items):
+            self.extend(items)
+            return self
+        """)],
+    "__imul__": [("raises", """
+        def __imul__(self, value):
+            raise NotImplementedError(ANY_)
+        """)],
+}
 T_NODE = {
     "addchild": [("std", """
         def addchild(self, child, index=None):
@@ -435,7 +446,7 @@ def translate_node_py(repo):
         raise TranslateError("ChildrenList is not a direct subclass of list")
     methods = {f.name: f for f in cl.body if isinstance(f, ast.FunctionDef)}
     expected = set(T_CHILDRENLIST) | {"__init__", "_validate_item"}
-    extra = set(methods) - expected
+    extra = set(methods) - expected - set(T_OPTIONAL)
     missing = expected - set(methods)
     if extra or missing:
         raise TranslateError("ChildrenList methods changed: unexpected %s, missing %s" % (sorted(extra), sorted(missing)))
@@ -447,6 +458,9 @@ def translate_node_py(repo):
     tags, holes = {}, {}
     for name, variants in T_CHILDRENLIST.items():
         tags[name], holes[name] = match_variants("ChildrenList." + name, methods[name], variants)
+    for name, variants in T_OPTIONAL.items():
+        if name in methods:
+            tags[name], _ = match_variants("ChildrenList." + name, methods[name], variants)
     nd = classes["Node"]
     nmethods = {}
     children_defs = []
@@ -476,6 +490,9 @@ def translate_node_py(repo):
         "f_remove_unlink": tags["remove"] == "unlink_removed",
         "f_setter_atomic": ctags[1] == "atomic",
         "f_cycle_check": tags["_check_is_orphan"] == "cyclecheck",
+        "f_iadd": tags.get("__iadd__") == "extend",
+        "f_imul": tags.get("__imul__") == "raises",
+        "e_setslice": "EGen" if tags["__setitem__"] == "found" else "EType",
     }
     text = {k: ast.unparse(holes[m]["ie"]) for k, m in
             (("ie_insert", "insert"), ("ie_pop", "pop"), ("ie_del", "__delitem__"), ("ie_set", "__setitem__"))}
@@ -632,7 +649,7 @@ def translate_rules(repo):
 def gen_v(params, rules, kind_classes, argn):
     lines = ["(* GENERATED by props/C14/translate.py from the PSyclone working tree — do not edit *)",
              "From Coq Require Import List ZArith Bool.", "Import ListNotations.",
-             "From PV Require Import C14.Model.", "Local Open Scope Z_scope.", "",
+             "From PV Require Import C14.Model C14.Model2.", "Local Open Scope Z_scope.", "",
              "Definition valid_child (ck : kind) (pos : Z) (xk : kind) : bool :=", "  match ck with"]
     for n in KINDS:
         lines.append("  | K%s => %s" % (n, rule_coq(rules[n], kind_classes)))
@@ -643,7 +660,10 @@ def gen_v(params, rules, kind_classes, argn):
                   iexpr_coq(params["ie_insert"]), iexpr_coq(params["ie_pop"]), iexpr_coq(params["ie_del"]),
                   iexpr_coq(params["ie_set"]),
                   *[("true" if params[k] else "false") for k in
-                    ("f_extend_dup", "f_remove_unlink", "f_setter_atomic", "f_cycle_check")]), ""]
+                    ("f_extend_dup", "f_remove_unlink", "f_setter_atomic", "f_cycle_check")]), "",
+              "Definition P2_src : params2 := mkParams2 P_src %s %s %s." % (
+                  "true" if params["f_iadd"] else "false", "true" if params["f_imul"] else "false",
+                  params["e_setslice"]), ""]
     return "\n".join(lines)
 
 
@@ -660,5 +680,5 @@ def translate(repo=None, write=True):
 
 if __name__ == "__main__":
     r = translate()
-    print("C14 translator: P_src =", {k: (v if isinstance(v, bool) else r["text"][k]) for k, v in r["params"].items()},
+    print("C14 translator: P_src =", {k: (v if not isinstance(v, tuple) else r["text"][k]) for k, v in r["params"].items()},
           "rules for %d kinds, grid points cross-checked: %d" % (len(r["rules"]), r["grid_checked"]))
